@@ -735,6 +735,12 @@ func ruleRecoveryReplay(c *RC) *RuleResult {
 		}
 		if s.Target == c.API["OnReceive"] {
 			for _, sn := range s.Snaps {
+				if len(sn.Args) == 1 && strings.Contains(sn.Args[0].S, "l:stale:") {
+					// rebuilt from the recovery message before the node's epoch changed under it (the ChangeViews of the
+					// same message moved it to another view): stamped with the old view's primary, it is refused
+					r.Sites++
+					r.fail(h.Name+"/stale-rebuilt-payload", c.Prog.Pos(s.Node), "a payload rebuilt from the recovery message is handed to OnReceive after a call that may have changed the epoch it was rebuilt for ("+sn.Args[0].S+"): a request stamped with the previous view's primary is dropped as coming from the wrong node")
+				}
 				if len(sn.Args) == 1 {
 					mark(sn.Args[0])
 				}
@@ -841,9 +847,12 @@ func ruleLadder(c *RC) *RuleResult {
 		r.unresolved("timeout handler")
 		return r
 	}
+	// "says something" = the broadcast wrapper itself ran on the path (a must-event of the callee's summary for this
+	// calling context), not merely a function that contains a send site was entered: a sender that skips its broadcast
+	// on some path (e.g. "my request for this view is out already") does not count
 	var senders []string
-	for _, s := range c.sendSites {
-		senders = append(senders, "fn:"+s.Site.Fn.Name)
+	for w := range c.wrappers {
+		senders = append(senders, "fn:"+w.Name)
 	}
 	reqSenders := c.senderOf("PrepareRequestType")
 	hp, vp := mkTerm(KParam, th.Params[0].Name()), mkTerm(KParam, th.Params[1].Name())
